@@ -170,6 +170,8 @@ def gen_history(rnd: random.Random, flavor: dict) -> dict:
                                          field="initial_charges" in atoms["arrays"] or "initial_charges" in template["arrays"])}
     else:
         n = rnd.randint(1, nmax)
+        if driver in ("Isobaric", "Isotension") and rnd.random() < flavor.get("empty_box", 0.04):
+            n = 0  # an empty box is a legal isobaric system (N = 0)
         atoms = gen.gen_atoms(rnd, n, cell, arrays=arrays_p, uid=True, constraints=cons_kind)
         sc["atoms"] = atoms
         mol = rnd.choice([1, 1, 2, 3])
@@ -188,6 +190,8 @@ def gen_history(rnd: random.Random, flavor: dict) -> dict:
             params["pressure"] = gen.logu(rnd, 1e-4, 1e-1) if scale != "extreme" else gen.logu(rnd, 1e-6, 1e2)
             if rnd.random() < 0.15:
                 params["pressure"] = 0.0
+            elif rnd.random() < 0.1:
+                params["pressure"] = -params["pressure"]  # tension
             if driver == "Isotension":
                 r = rnd.random()
                 P = params["pressure"]
